@@ -81,6 +81,15 @@ check("C07", "runtime monitoring: per-sample safety post-conditions on the five 
       "Trusted: detector reference in /verif/lwverif/detref.py, scipy binomial tails; base distribution taken from the "
       "implementation (C04/C06).", "DESIGN.md 4 C07")
 
+check("C11", "runtime monitoring: fresh-twin oracle as an online monitor on every distribution read and sampling call of "
+      "long-lived Sampler/QuickSampler objects (twin built from current public settings, same seed / saved random "
+      "state), plus a post-condition on Analyzer.analyze, driven by random reconfiguration histories",
+      "Held on the histories explored (every attribute kind changed between observations, sampling before any read, "
+      "circuit replaced by one with equal U_full and other heralds, PostSelection mutated in place): reads and seeded "
+      "samples equal those of a fresh object; analysis results carry only what the call computed.",
+      "Trusted: a freshly constructed object of the same implementation is the reference (history-independence is "
+      "what is decided, not absolute correctness - that is C04-C07).", "DESIGN.md 4 C11")
+
 NOT_APPLICABLE = []
 _EXPLICIT_NA = {}
 for line in open("/verif/properties.jsonl"):
